@@ -31,7 +31,7 @@ NodesOK(logged, want) == /\ Len(logged) = Len(want)
 KindOfOrder(o) == IF o = 0 THEN "F" ELSE IF o = 1 THEN "D1" ELSE "D2"
 
 \* one look-up
-QueryOK(rule, nodes, ib, q) ==
+QueryOK(rule, nodes, ib, tags, q) ==
   LET NS == NodeNames(nodes) \cup (IF IsNum(q.val) THEN NamesOf(q.val) ELSE {})
       W == Value(rule, nodes, q.x, NS)
       tame == FIsFinite(W.re) /\ FLt(FAbs(W.re), Big) /\ FLt(FOfRat(1, 1000000), FAbs(W.re))
@@ -39,6 +39,12 @@ QueryOK(rule, nodes, ib, q) ==
      /\ (tame => /\ q.o = "ok" /\ IsNum(q.val) /\ q.val.k = nodes[1].v.k
                  /\ FClose(q.val.re, W.re, W.sre)
                  /\ (Sens => CloseTo(q.val, W, NS) /\ ShapeOK(q.val))
+                 \* the same sensitivities read BY NODE TAG in node order (gradient1 / gradient2 with a requested list):
+                 \* a read-back copies, so it agrees bit for bit with the stored derivatives by name - zero for a tag the
+                 \* value does not carry, and the full (symmetric) matrix at second order
+                 /\ (Sens /\ "gt" \in DOMAIN q => LET T == tags n == Len(tags) IN
+                       /\ Len(q.gt) = n /\ \A i \in 1..n : q.gt[i] = G(q.val, T[i])
+                       /\ Len(q.ht) = n /\ \A i \in 1..n : Len(q.ht[i]) = n /\ \A j \in 1..n : q.ht[i][j] = H(q.val, T[i], T[j]))
                  \* index value = base / value, or zero before the first node; an error without a base
                  /\ IF ib = <<>> THEN q.ivo = "err"
                     ELSE IF q.x < nodes[1].d THEN q.ivo = "ok" /\ q.iv.k = "F" /\ q.iv.re = FZ
@@ -47,7 +53,7 @@ QueryOK(rule, nodes, ib, q) ==
                             FClose(q.iv.re, IV.re, IV.sre) /\ (Sens => CloseTo(q.iv, IV, NS)))
 StateOK(rule, ib, want, s) ==
   /\ NodesOK(s.nodes, want)
-  /\ \A k \in 1..Len(s.q) : QueryOK(rule, s.nodes, ib, s.q[k])
+  /\ \A k \in 1..Len(s.q) : QueryOK(rule, s.nodes, ib, IF "tags" \in DOMAIN s THEN s.tags ELSE <<>>, s.q[k])
 \* values never change when the order is switched (compared with the previous logged state, bit for bit on nodes,
 \* to rounding on look-ups because first- and second-order arithmetic may round reciprocals differently)
 SameValues(a, b) == /\ Len(a.q) = Len(b.q)
